@@ -27,6 +27,15 @@ def run(R):
                 starts.append(len(ops))
                 ops.append("O 0 %s %d %d" % (fill, R.rng.randrange(16), R.rng.randrange(1 << 30))); meta.append(("setup", "obj", 0, 0))
                 ops.append(CS.crypt_op("r" if fill == "f" else "rn", 0, ph, S.CANON[m])); meta.append((m, "first-call-on-filled-object", len(ph), len(S.CANON[m])))
+    # salts spelled like option fields: what follows `$5$` is read as `rounds=N$` when it looks like it, whether it was meant as the option or as
+    # the salt - a result that drops or rewrites its option field shifts such a salt into the option position (seeded/C01g)
+    for st, m in [(b"$5$rounds=5000$rounds=1000", "sha256crypt"), (b"$5$rounds=5000$rounds=77", "sha256crypt"), (b"$5$rounds=5000$rounds=", "sha256crypt"),
+                  (b"$5$rounds=1000$rounds=5000", "sha256crypt"), (b"$5$rounds=5000$rounds=5000$x", "sha256crypt"), (b"$5$rounds=1234$rounds=1234", "sha256crypt"),
+                  (b"$6$rounds=5000$rounds=1000", "sha512crypt"), (b"$6$rounds=5000$rounds=77$", "sha512crypt"), (b"$6$rounds=1000$rounds=5000", "sha512crypt"),
+                  (b"$6$rounds=5000$rounds=999999999", "sha512crypt"), (b"$md5,rounds=5$rounds=7$", "sunmd5"), (b"$md5$rounds=5$", "sunmd5"), (b"$md5$rounds=5$$", "sunmd5"),
+                  (b"$sha1$24$rounds=5$", "sha1crypt"), (b"$sha1$24$24$", "sha1crypt"), (b"$1$rounds=5", "md5crypt"), (b"$1$rounds=5000$x", "md5crypt")]:
+        for ph in (b"pw", b"a phrase longer than eight bytes"):
+            starts.append(len(ops)); ops.append(CS.crypt_op("rn", 0, ph, st)); meta.append((m, "option-like-salt", len(ph), len(st)))
     ops, meta, il, ml = CS.run_budgeted(R, ops, meta, group_starts=starts)
     diffs = compare(R, ops, il, ml, lambda op, a, b: CS.proj_crypt(op, a, b) if op.startswith("C ") else None, "first hash")
     # second round: for every success, re-hash with H and with H whose hash portion is replaced
